@@ -509,18 +509,27 @@ int32_t jls_core_rd_chunk_end(struct jls_core_s * self) {
             uint32_t crc32 = jls_crc32c_hdr(h);
             if (crc32 == h->crc32) {
                 int64_t pos_final = pos + i * sizeof(uint64_t);
-                // A 28-byte payload followed by its CRC32 has the same layout as a chunk header.
-                // If the 32 bytes before this candidate are a valid header with such a payload,
-                // the candidate is that chunk's payload: skip it, the scan reaches the real header next.
-                if (pos_final >= (int64_t) (sizeof(struct jls_file_header_s) + sizeof(struct jls_chunk_header_s))) {
+                // A 28-byte payload followed by its CRC32 has the same layout as a chunk header, and its
+                // content (e.g. user data) may even claim a 28-byte payload of its own.  Count the run of
+                // such 32-byte blocks that ends right before this candidate.  The first block of the run
+                // is a real header (nothing in front of it announces a 28-byte payload), the second is
+                // its payload, and so on: the candidate is a payload, not a header, iff the run is odd.
+                int64_t pos_prev = pos_final - (int64_t) sizeof(struct jls_chunk_header_s);
+                uint32_t run = 0;
+                while (pos_prev >= (int64_t) sizeof(struct jls_file_header_s)) {
                     struct jls_chunk_header_s h_prev;
-                    if (jls_raw_chunk_seek(self->raw, pos_final - (int64_t) sizeof(struct jls_chunk_header_s))) {
+                    if (jls_raw_chunk_seek(self->raw, pos_prev)) {
                         return JLS_ERROR_IO;
                     }
-                    if ((0 == jls_raw_rd_header(self->raw, &h_prev))
-                            && (h_prev.payload_length == (sizeof(struct jls_chunk_header_s) - sizeof(uint32_t)))) {
-                        continue;
+                    if ((0 != jls_raw_rd_header(self->raw, &h_prev))
+                            || (h_prev.payload_length != (sizeof(struct jls_chunk_header_s) - sizeof(uint32_t)))) {
+                        break;
                     }
+                    ++run;
+                    pos_prev -= (int64_t) sizeof(struct jls_chunk_header_s);
+                }
+                if (run & 1) {
+                    continue;  // the candidate is the payload of the header before it
                 }
                 // likely chunk candidate, validate payload
                 if (jls_raw_chunk_seek(self->raw, pos_final)) {
